@@ -28,7 +28,7 @@ class Built:
 
 def _prepare(args):
     """generate headers + compile every TU for every cell (one schema); returns a picklable summary"""
-    schema, descs, root, cells, want, defines = args
+    schema, descs, root, cells, want, defines, srcgen = args
     b = Built(schema, descs, root)
     try:
         ok = b.sb.generate()
@@ -39,9 +39,13 @@ def _prepare(args):
         b.rmsgs = layout.Resolver(schema).messages()
         for i in range(0, len(b.rmsgs), TU_MSGS):
             chunk = b.rmsgs[i:i + TU_MSGS]
-            src = build.driver_source(schema, chunk, b.sb.top_header(), want=want)
-            dg = cxx.src_digest(src, open(os.path.join(cxx.CXXDIR, "drv.hpp"), "rb").read(),
-                                open(os.path.join(cxx.CXXDIR, "harness.hpp"), "rb").read(), defines)
+            if srcgen:
+                import importlib
+                src = getattr(importlib.import_module(srcgen[0]), srcgen[1])(schema, chunk, b.sb.top_header())
+            else:
+                src = build.driver_source(schema, chunk, b.sb.top_header(), want=want)
+            hdrs = b"".join(open(os.path.join(cxx.CXXDIR, h), "rb").read() for h in ("drv.hpp", "harness.hpp", "cx.hpp"))
+            dg = cxx.src_digest(src, hdrs, defines)
             cpp = os.path.join(root, "drv_%d_%s.cpp" % (i, dg))
             if not os.path.exists(cpp):
                 with open(cpp, "w") as fh:
@@ -63,10 +67,11 @@ def _prepare(args):
     return b
 
 
-def prepare(name, schemas, cells, want=("dump", "enc"), defines=("SBEPP_ENABLE_ASSERTS_WITH_HANDLER",), jobs=None):
+def prepare(name, schemas, cells, want=("dump", "enc"), defines=("SBEPP_ENABLE_ASSERTS_WITH_HANDLER",), jobs=None,
+            srcgen=None):
     """schemas: list of (Schema, descs). -> list of Built (in order)"""
     base = cxx.workdir(name)
-    args = [(s, d, os.path.join(base, s.package), list(cells), tuple(want), list(defines)) for s, d in schemas]
+    args = [(s, d, os.path.join(base, s.package), list(cells), tuple(want), list(defines), srcgen) for s, d in schemas]
     with cf.ProcessPoolExecutor(max_workers=jobs or repo.NPROC) as ex:
         return list(ex.map(_prepare, args, chunksize=1))
 
@@ -97,7 +102,8 @@ def _run_schema(args):
             meta = {}
             for mi in range(count):
                 rm = rmsgs[first + mi]
-                plan(built.schema, rm, mi, built.descs[first + mi], lines, meta, res, **plan_kw)
+                plan(built.schema, rm, mi, built.descs[first + mi], lines, meta, res,
+                     **{k: v for k, v in plan_kw.items() if k != "ok_fields"})
             if not lines:
                 continue
             data = ("\n".join(lines) + "\n").encode()
@@ -114,6 +120,9 @@ def _run_schema(args):
                     res.errors.append(("driver-run", "%s rc=%s tail=%s" % (exe, rc, out[-500:])))
                 if len(ok) + len(fails) != len(meta):
                     res.errors.append(("driver-count", "%s: %d results for %d cases" % (exe, len(ok) + len(fails), len(meta))))
+                for cid, toks in ok.items():
+                    for k, v in zip(plan_kw.get("ok_fields", ()), toks):
+                        res.counters[k] = res.counters.get(k, 0) + int(v)
                 for cid, detail in fails.items():
                     m = dict(meta.get(cid, {}))
                     m["cell"] = cn
